@@ -135,7 +135,7 @@ class Check(ParCheck):
             if n7 > 1:
                 return f"single-use value handed to {n7} callers"
         flat = [o for t in r['outs'].split('|') for o in t.split(',') if o]
-        if name.startswith(('oncepart', 'once2_', 'once3_', 'once4_', 'once2x2', 'once3x2')):
+        if name.startswith(('oncepart2', 'oncepart1x2', 'once2_', 'once3_', 'once4_', 'once2x2', 'once3x2')):   # (ordered patterns reject the extra call as out of order instead)
             others = [o for o in flat if o not in ('ret:7', 'ret:9')]
             if any(not o.startswith('err:CannotReturnValueMoreThanOnce') for o in others) or len(others) != len(flat) - 1:
                 return f"a single-use value must go to exactly one request and every other request must panic (CannotReturnValueMoreThanOnce): {flat}"
